@@ -13,6 +13,10 @@ Ops
   through `Engine::process`, a summary is `Engine::trading_summary_generator(rf).generate(iv)`;
   `direct`: a long-lived `TradingSummaryGenerator` (initialised from a fresh engine state, both clocks
   at the engine start) updated by its own `update_from_*`.
+* `initb n m engine|direct rf [a total free]…`  as `init`, with INITIAL balances given to
+  `EngineStateBuilder::balances` (a HashMap: of two entries for one asset the last is kept), each applied by
+  `build()` as a snapshot at the engine start (`bal a 0 total free`) through `AssetState::update_from_balance`
+  before the engine / the generator taken from its state exists (the summary clock is not moved).
 * `pos i t pnl entry qty`      (direct) a `PositionExited` of instrument `i` with `time_exit = t`.
 * `rt i B|S entry qty exit feeIn feeOut tIn tOut`   (engine) opening fill at `tIn` + exactly closing
   fill at `tOut`.
@@ -81,6 +85,7 @@ def root : Rat → Rat := DataSet.sqrtApprox
 
 inductive Op where
   | init (n m : Nat) (mode : Mode) (rf : Rat)
+  | initb (n m : Nat) (mode : Mode) (rf : Rat) (bals : List (Nat × Balance))
   | pos (i : Nat) (p : Exit)
   | fills (i : Nat) (exits : List Exit)
   | bal (a : Nat) (s : BalSnap)
@@ -124,7 +129,28 @@ def parseSnapItems : List String → Option (List (Nat × BalSnap))
     | _, _, _, _, _ => none
   | _ => none
 
+def parseBals : List String → Option (List (Nat × Balance))
+  | [] => some []
+  | a :: total :: free :: rest =>
+    match a.toNat?, parseRat? total, parseRat? free, parseBals rest with
+    | some a, some total, some free, some tl => some ((a, ⟨total, free⟩) :: tl)
+    | _, _, _, _ => none
+  | _ => none
+
+/-- `EngineStateBuilder::balances` collects into a HashMap: a later entry for the same asset replaces the earlier -/
+def dedupLast : List (Nat × Balance) → List (Nat × Balance)
+  | [] => []
+  | (a, b) :: tl => if tl.any (fun x => x.1 == a) then dedupLast tl else (a, b) :: dedupLast tl
+
+/-- the initial balances as the snapshots `EngineStateBuilder::build` applies (time = engine start = 0) -/
+def initEvs (bals : List (Nat × Balance)) : List Ev := (dedupLast bals).map fun (a, b) => .balance a ⟨0, b⟩
+
 def parseOp : List String → Option Op
+  | "initb" :: n :: m :: mode :: rf :: rest =>
+    match n.toNat?, m.toNat?, (if mode == "direct" then some Mode.direct
+        else if mode == "engine" then some Mode.engine else none), parseRat? rf, parseBals rest with
+    | some n, some m, some mode, some rf, some bals => some (.initb n m mode rf bals)
+    | _, _, _, _, _ => none
   | ["init", n, m, mode, rf] =>
     match n.toNat?, m.toNat?, (if mode == "direct" then some Mode.direct
         else if mode == "engine" then some Mode.engine else none), parseRat? rf with
@@ -213,6 +239,14 @@ def model : Drv MSt where
     | some (.init n m .direct rf) =>
       (.direct n m (SummaryGen.init rf 0 0 (EngState.init 0 n m)), [])
     | some (.init n m .engine rf) => (.engine n m rf (EngState.init 0 n m), [])
+    | some (.initb n m mode rf bals) =>
+      -- an unknown asset key panics in the builder (`AssetStates::asset_mut`)
+      match (EngState.init 0 n m).runChecked root (initEvs bals) with
+      | none => (.none, ["panic"])
+      | some e =>
+        match mode with
+        | .direct => (.direct n m (SummaryGen.init rf 0 0 e), [])
+        | .engine => (.engine n m rf e, [])
     | some (.pos i p) =>
       match s with
       | .direct n m g =>
@@ -362,6 +396,10 @@ def spec : Drv SSt where
     match parseOp toks with
     | none => (s, ["bad-op"])
     | some (.init n m mode rf) => (⟨true, mode, n, m, rf, [], [], []⟩, [])
+    | some (.initb n m mode rf bals) =>
+      if (initEvs bals).any (evPanics n m) then (⟨false, .direct, 0, 0, 0, [], [], []⟩, ["panic"]) else
+      -- the initial balances are the first snapshots of their assets' histories
+      (⟨true, mode, n, m, rf, initEvs bals, [], []⟩, [])
     | some (.pos i p) =>
       if !s.started || s.mode != .direct then (s, ["bad-op"]) else push [.position i p] []
     | some (.fills i exits) =>
